@@ -191,7 +191,7 @@ func c12(c *orch.Ctx) (*report.Result, error) {
 		if c.Replay != "" {
 			return replayOpts
 		}
-		return RouterOpts{ValidateResp: i%2 == 1}
+		return RouterOpts{ValidateResp: i%2 == 1, EnumValid: i%3 == 0}
 	}
 	orch.ParallelMap(len(projects), 4, func(i int) { rps[i] = BuildRouterProject(c, l, bin, projects[i], optsOf(i)) })
 	for pi, rp := range rps {
